@@ -1,6 +1,6 @@
 #!/bin/bash
 # usage: seedtest.sh <patch.diff> <tier> <prop> [<prop>...]   -- applies a seeded change to /repo, runs checks, reverts
-PATCH="$1"; TIER="$2"; shift 2
+PATCH="$(readlink -f "$1")"; TIER="$2"; shift 2
 cd /repo || exit 2
 if ! git diff --quiet; then echo "repo dirty, refusing"; exit 2; fi
 git apply "$PATCH" || { echo "patch does not apply"; exit 2; }
